@@ -132,6 +132,7 @@ def run_path(contract, decisions, registry, first):
 
         def frame_cb(fr):
             fr.contract = contract
+            ip.in_body = True
 
         outcome = None
         try:
